@@ -101,7 +101,8 @@ def step {α : Type} (o : Ops α) (w : EW α) (now : Nat) : EOp → EW α
   | .setPos p => let w := { w with pos := p }; let (ok, w) := gateAllow w now; if ok then tick o w now else w
   | .resetEta => { w with est := reset o { w.est with prevSteps := w.pos } now }
   | .resetElapsed => { w with est := reset o { w.est with prevSteps := w.pos } now, started := now }
-  | .reset => { w with est := reset o { w.est with prevSteps := w.pos } now, started := now, pos := 0,
+  -- (the position starts again at zero and so does the estimator's view of it: repair of F37)
+  | .reset => { w with est := reset o { w.est with prevSteps := 0 } now, started := now, pos := 0,
                        gatePrev := now - w.gateStart, finished := false }
   | .finish => { w with finished := true, pos := w.len.getD w.pos }
   | .setLen l => tick o { w with len := l } now
